@@ -174,3 +174,13 @@ package misc
 //@   panics "invalid word in mnemonic"
 //@   panics "unexpected MnemonicToExtendedSeedBin output size"
 //@   ensures[C10] strof(result) == strof(phrase)
+
+//@ func VerifLemmaSeedRoundTrip
+//@   props C09
+//@   exit[C09] forallx u_ :: 0 <= u_ && u_ < 16 ==> result[3*u_] == seed[3*u_] && result[3*u_+1] == seed[3*u_+1] && result[3*u_+2] == seed[3*u_+2]
+//@   ensures[C09] forall q_ :: 0 <= q_ && q_ < 48 ==> result[q_] == seed[q_]
+
+//@ func VerifLemmaExtendedSeedRoundTrip
+//@   props C09
+//@   exit[C09] forallx u_ :: 0 <= u_ && u_ < 17 ==> result[3*u_] == eseed[3*u_] && result[3*u_+1] == eseed[3*u_+1] && result[3*u_+2] == eseed[3*u_+2]
+//@   ensures[C09] forall q_ :: 0 <= q_ && q_ < 51 ==> result[q_] == eseed[q_]
